@@ -93,6 +93,9 @@ def check_dispatch(idx: Index, rep: Report):
                what="the returned operator does not alias the encoder's internal dictionary", reason="terms not copied")
     # scBK needs the electron number
     decide_refusals(idx, rep, rule, f, [("scBK without n_electrons", dict(base, mapping="scbk", n_electrons=None), True),
+                                         ("scBK with zero electrons (a valid sector)", dict(base, mapping="scbk", n_electrons=0), False),
+                                         ("scBK with n_electrons given as an (alpha, beta) pair", dict(base, mapping="scbk", n_electrons=(1, 1)), False),
+                                         ("JW with zero electrons", dict(base, mapping="jw", n_electrons=0), False),
                                          ("up_then_down without n_spinorbitals", dict(base, mapping="jw", up_then_down=True, n_spinorbitals=None), True)],
                     what="the symmetry-conserving encoding needs the electron number; re-ordering needs the register size", may_skip=("mapping.upper in",))
     # dead guard (informational)
